@@ -249,6 +249,7 @@ class Ref:
         self.reads = set()
         self.read_log = []
         self.abandoned_reads = set()
+        self.needless = set()  # (kind, name) events inside coalesce members abandoned for a missing option
         self.abandoned_by_origin = {}
         self.optional_absent = set()
         self.body_events = []
@@ -508,6 +509,10 @@ class Ref:
                 # materialise a trial copy, then produce the value afresh
                 norm(self.ev(m, o))
             except RefFail as e:
+                if e.kind == "missing":
+                    # the member cannot be evaluated because an option is absent: nothing it contains is needed,
+                    # and finding that out needs no body other than branch-choosing ones
+                    self.needless.update((k, n) for (k, n, _) in self.log[start:] if (k, n) not in self.structural)
                 self._trial_exit(start, False)
                 last = e
                 continue
